@@ -8,8 +8,20 @@ PROPS = {
     "C13": {
         "units": ["bitstream"],
         "kani": {"quick": STD_SPECS + ["c13_read_cmr_complete", "c13_read_cmr_short_complete"],
-                 "thorough": ["c13_read_fail_entropy_complete", "c13_collect_bits_bounded20"]},
+                 "thorough": ["c13_read_fail_entropy_complete", "c13_collect_bits_bounded20", "c13_writer_ops_bounded", "c13_reader_ops_bounded"]},
         "cex": {"BitIter::byte_slice_window": "c13_byte_slice_window_exact_cex"},
+        "fallback": {
+            "BitWriter::write_bit": ["c13_writer_ops_bounded"],
+            "BitWriter::write_bits_be": ["c13_writer_ops_bounded"],
+            "BitWriter::write": ["c13_writer_ops_bounded"],
+            "BitWriter::flush_all": ["c13_writer_ops_bounded"],
+            "BitIter::next": ["c13_reader_ops_bounded"],
+            "BitIter::read_bit": ["c13_reader_ops_bounded"],
+            "BitIter::read_u2": ["c13_reader_ops_bounded"],
+            "BitIter::read_u8": ["c13_reader_ops_bounded", "c13_read_cmr_complete"],
+            "BitIter::close": ["c13_reader_ops_bounded"],
+            "BitIter::byte_slice_window": ["c13_byte_slice_window_exact_cex"],
+        },
         "level": "proof",
         "level_text": "Unbounded deductive proof (Verus) of functional contracts on the real BitIter / BitWriter / encode_natural code, "
                       "extracted from /repo on every run: every bit position, every cursor alignment, every natural number.",
@@ -49,6 +61,15 @@ PROPS = {
     },
     "C07": {
         "units": ["machine", "bounds"],
+        "fallback": {
+            "Frame::write_bit": ["c05_frame_write_bit_bounded"],
+            "Frame::read_bit": ["c05_frame_read_peek_bounded"],
+            "Frame::peek_bit": ["c05_frame_read_peek_bounded"],
+            "Frame::write_u8": ["c05_frame_write_u8_bounded"],
+            "Frame::copy_from": ["c05_frame_copy_from_bounded"],
+            "get_indices": ["c05_frame_write_bit_bounded", "c05_frame_read_peek_bounded"],
+        },
+
         "kani": {"quick": ["s07_usize_div_ceil_8"], "thorough": []},
         "level": "proof",
         "level_text": "Unbounded deductive proof (Verus) of (1) every Bit Machine memory primitive (Frame::*, BitMachine::{new_write_frame, "
@@ -71,7 +92,15 @@ PROPS = {
     },
     "C05": {
         "units": ["machine"],
-        "kani": {"quick": [], "thorough": []},
+        "fallback": {
+            "Frame::write_bit": ["c05_frame_write_bit_bounded"],
+            "Frame::read_bit": ["c05_frame_read_peek_bounded"],
+            "Frame::peek_bit": ["c05_frame_read_peek_bounded"],
+            "Frame::write_u8": ["c05_frame_write_u8_bounded"],
+            "Frame::copy_from": ["c05_frame_copy_from_bounded"],
+            "get_indices": ["c05_frame_write_bit_bounded", "c05_frame_read_peek_bounded"],
+        },
+        "kani": {"quick": [], "thorough": ["c05_frame_write_bit_bounded", "c05_frame_read_peek_bounded", "c05_frame_write_u8_bounded", "c05_frame_copy_from_bounded"]},
         "level": "proof",
         "level_text": "Unbounded deductive proof (Verus) of the functional contract of every memory primitive the interpreter is built from: "
                       "write_bit sets exactly one bit and leaves every other bit of the buffer unchanged; read/peek return the bit under the cursor; "
